@@ -34,7 +34,7 @@ def run(ctx):
     ctx.coverage["generated_facts"] = facts_summary(facts)
     ok, out = common.lean_obligations(ctx, MODULE, ["TriompheModel.Props.Gates", "TriompheModel.WM.Consume", "TriompheModel.WM.RelSeq",
                                                     "TriompheModel.WM.FinExec", "TriompheModel.WM.FinExamples", "TriompheModel.WM.Search",
-                                                    "TriompheModel.WM.Ownership", "TriompheModel.WM.OwnershipExamples"])
+                                                    "TriompheModel.WM.Ownership", "TriompheModel.WM.OwnershipExamples", "TriompheModel.Props.C02Programs"])
     # model-side search at the orderings of this tree: the template family must contain no racy execution
     nw, wtxt = common.wm_search(ctx, facts)
     ctx.oblige("model-search:no-racy-template-execution", nw == 0, wtxt[:300])
